@@ -598,7 +598,9 @@ class ExprKeyword(Expr):
     def canonical_path(self) -> str:
         """Path of the expressed keyword."""
         if self.function:
-            return f"{self.function.canonical_path}({self.name})"
+            # The called thing can be a plain string (a constant), like in `ExprCall.canonical_path`.
+            function_path = self.function if isinstance(self.function, str) else self.function.canonical_path
+            return f"{function_path}({self.name})"
         return super(ExprKeyword, self).canonical_path  # noqa: UP008
 
     def iterate(self, *, flat: bool = True) -> Iterator[str | Expr]:
